@@ -953,7 +953,9 @@ class C16(E2EProp):
             "point of one line with a 170 ms gap; malformed-only feed; 1090: rendered frames on stdout = the decodable complete lines in order; radar (pty): "
             "message counts per aircraft on the Airplanes tab, clean exit on disconnect, reconnect with --retry-tcp keeps the aircraft; "
             "non-trivial = distinct scenarios")
-    claim = "the loop processes exactly the complete lines of the stream once, in order, for every segmentation and delay pattern; parse_line total (theorems); e2e on the binaries"
+    claim = ("the loop processes exactly the complete lines of the stream once, in order, for every segmentation and delay pattern; parse_line total; --limit-parsing only filters "
+             "(whether a line is processed never depends on the lines before it); with --retry-tcp the outputs over any number of connections are each connection's complete lines, "
+             "the fragment of a dropped connection is never joined to the next connection's first line (theorems over the loop model); e2e on the binaries")
     note = "partial: TCP / BufReader / socket-timeout semantics are modelled as (chunk | gap > 50 ms | eof) events and exercised with gaps of 0 or >= 150 ms; gaps near 50 ms are outside the model"
     def scenarios(self, rng, tier, report):
         import clients
